@@ -435,9 +435,9 @@ theorem flc_impl_eq_spec (c : Ctx) (rot) (hrot : RotOk (α := α) c.ms rot) (f f
       = scoreFLC (fieldOps sqrt lt eps) c.Cspec c.ms f f2 (rot g) (rot w) := by
   unfold scoreFLC
   have hW := hrot.supp w hw
-  simp only [hrot.comm, maskSum_rev, normTemplate_rev]
+  simp only [hrot.comm, maskSum_rev, normStats_rev, normT_rev]
   rw [c.impl_rev f (rot w) hf hW, c.impl_rev f2 (rot w) hf2 hW,
-      c.impl_rev f _ hf (supp_normTemplate sqrt lt eps c.ms (rot g) (rot w) _ hW)]
+      c.impl_rev f _ hf (supp_normT sqrt lt eps _ c.ms (rot g) (rot w) hW)]
 
 /-- **CORR / CAM** (CAM = CORR on globally standardised inputs): mask not rotated -/
 theorem corr_impl_eq_spec (c : Ctx) (rot) (hrot : RotOk (α := α) c.ms rot) (f f2 g w : List Int → α)
@@ -445,10 +445,10 @@ theorem corr_impl_eq_spec (c : Ctx) (rot) (hrot : RotOk (α := α) c.ms rot) (f 
     scoreCORR (fieldOps sqrt lt eps) c.Cimpl c.ms rot f f2 (rev c.ms g) (rev c.ms w)
       = scoreCORR (fieldOps sqrt lt eps) c.Cspec c.ms rot f f2 g w := by
   unfold scoreCORR
-  simp only [maskSum_rev, normTemplate_rev]
+  simp only [maskSum_rev, normStats_rev, normT_rev]
   -- rewrite every stored-frame integrand / field as the reversal of its natural-frame counterpart
   set n := maskSum (fieldOps sqrt lt eps) c.ms w
-  set gh := normTemplate (fieldOps sqrt lt eps) c.ms g w n
+  set gh := normT (fieldOps sqrt lt eps) (normStats (fieldOps sqrt lt eps) c.ms g w n) g w
   have e1 : (fun k => (fieldOps sqrt lt eps).mul (rev c.ms gh (natsToInts k)) (rev c.ms w (natsToInts k)))
       = fun k => rev c.ms (fun x => (fieldOps sqrt lt eps).mul (gh x) (w x)) (natsToInts k) := by
     funext k; exact congrFun (rev_map2 c.ms _ gh w) _
@@ -473,9 +473,9 @@ theorem flcSph_impl_eq_spec (c : Ctx) (rot) (hrot : RotOk (α := α) c.ms rot) (
     scoreFLCSph (fieldOps sqrt lt eps) c.Cimpl c.ms rot f f2 (rev c.ms g) (rev c.ms w)
       = scoreFLCSph (fieldOps sqrt lt eps) c.Cspec c.ms rot f f2 g w := by
   unfold scoreFLCSph
-  simp only [maskSum_rev, normTemplate_rev, hrot.comm]
+  simp only [maskSum_rev, normStats_rev, normT_rev, hrot.comm]
   rw [c.impl_rev f w hf hw, c.impl_rev f2 w hf2 hw,
-      c.impl_rev f _ hf (supp_normTemplate sqrt lt eps c.ms _ w _ hw)]
+      c.impl_rev f _ hf (supp_normT sqrt lt eps _ c.ms _ w hw)]
 
 /-- **MCC**, the per-voxel numerator / denominator / mask overlap (the two map-global thresholds are then
 applied by the same code to both sides) -/
@@ -485,9 +485,10 @@ theorem mcc_parts_impl_eq_spec (c : Ctx) (rot) (hrot : RotOk (α := α) c.ms rot
       = mccParts (fieldOps sqrt lt eps) c.Cspec c.ms fm fm2 tm (rot g) (rot w) := by
   unfold mccParts
   have hW := hrot.supp w hw
-  simp only [hrot.comm, maskSum_rev, normTemplate_rev]
-  set gh := normTemplate (fieldOps sqrt lt eps) c.ms (rot g) (rot w) (maskSum (fieldOps sqrt lt eps) c.ms (rot w))
-  have hgh : Supp c.ms gh := supp_normTemplate sqrt lt eps c.ms (rot g) (rot w) _ hW
+  simp only [hrot.comm, maskSum_rev, normStats_rev, normT_rev]
+  set gh := normT (fieldOps sqrt lt eps)
+    (normStats (fieldOps sqrt lt eps) c.ms (rot g) (rot w) (maskSum (fieldOps sqrt lt eps) c.ms (rot w))) (rot g) (rot w)
+  have hgh : Supp c.ms gh := supp_normT sqrt lt eps _ c.ms (rot g) (rot w) hW
   have e : (fun x => (fieldOps sqrt lt eps).sq (rev c.ms gh x)) = rev c.ms (fun x => (fieldOps sqrt lt eps).sq (gh x)) :=
     rev_map1 c.ms _ gh
   simp only [e]
